@@ -54,6 +54,9 @@ type vpC06Arg struct {
 	hot   bool // contains ';', CR, LF or '"'
 }
 
+// vpC06Recycled is parsed into again and again (tests of one process run sequentially).
+var vpC06Recycled RequestHeader
+
 // vpC06ForceOctets is set per generated case (the tests of one process run sequentially).
 var vpC06ForceOctets bool
 
@@ -79,6 +82,10 @@ func vpC06GenArg(t *rapid.T, label string, kind string) vpC06Arg {
 			s = rapid.StringOfN(rapid.SampledFrom(vpC06OctetChars), 0, 16, -1).Draw(t, label+"_oct")
 		}
 		return vpC06Arg{s: s, octet: true}
+	}
+	if kind == "key" && rapid.IntRange(0, 7).Draw(t, label+"_emptykey") == 0 {
+		// a cookie without a name ("Cookie: value"): legal to set, and parsed into recycled slots on a server
+		return vpC06Arg{s: ""}
 	}
 	n := rapid.IntRange(1, 4).Draw(t, label+"_n")
 	var b []byte
@@ -722,6 +729,34 @@ func TestVP_C06_RequestCookies(t *testing.T) {
 			}
 			if exact && fmt.Sprint(got) != fmt.Sprint(model) {
 				fail("fasthttp reader sees %q, want exactly %q", got, model)
+			}
+		}
+		// ---- a RECYCLED fasthttp reader (as on the 2nd+ request of a keep-alive connection): its previous
+		// request carried keyed cookies; what it yields for this request must not depend on that
+		{
+			var fresh RequestHeader
+			errF := fresh.Read(bufio.NewReader(bytes.NewReader(wire)))
+			prev := "GET /prev HTTP/1.1\r\nHost: h\r\nCookie: session=tok; lang=en; third=3; fourth=4\r\n\r\n"
+			if err := vpC06Recycled.Read(bufio.NewReader(strings.NewReader(prev))); err != nil {
+				fail("harness: recycled reader rejects the priming request: %v", err)
+			}
+			for range vpC06Recycled.Cookies() { // make it collect (and later recycle) its cookie slots
+			}
+			errR := vpC06Recycled.Read(bufio.NewReader(bytes.NewReader(wire)))
+			if (errF == nil) != (errR == nil) {
+				fail("a recycled RequestHeader and a fresh one disagree on accepting the request: fresh=%v recycled=%v", errF, errR)
+			}
+			if errF == nil {
+				var a, b []vpC06KV
+				for k, v := range fresh.Cookies() {
+					a = append(a, vpC06KV{string(k), string(v)})
+				}
+				for k, v := range vpC06Recycled.Cookies() {
+					b = append(b, vpC06KV{string(k), string(v)})
+				}
+				if fmt.Sprint(a) != fmt.Sprint(b) {
+					fail("a recycled RequestHeader (previous request: %q) sees cookies %q, a fresh one sees %q", prev, b, a)
+				}
 			}
 		}
 		// ---- net/http
